@@ -218,6 +218,10 @@ func (ex *Exec) chanSend(fr *frame, in ssa.Instruction, chv Value, v Value) {
 	if !ok {
 		ex.badCell(chv, "Send")
 	}
+	if ex.schedOn() && (ch == nil || ch.Handler == nil) {
+		ex.schedSend(fr, in, ch, v)
+		return
+	}
 	if ch == nil {
 		panic(pathEnd{endViolation, "blocked forever: send on nil channel at " + ex.instrPos(fr, in)})
 	}
@@ -241,10 +245,21 @@ func (ex *Exec) chanRecv(fr *frame, in ssa.Instruction, chv Value, commaOk bool)
 	if !ok {
 		ex.badCell(chv, "Recv")
 	}
+	if ex.schedOn() {
+		where := "receive at " + ex.instrPos(fr, in)
+		ex.preemptPoint(where)
+		if ch == nil {
+			ex.block(func() bool { return false }, where+" (nil channel)")
+		}
+		ch.RecvWaiters++
+		ex.block(func() bool { return len(ch.Buf) > 0 || ch.Closed }, where)
+		ch.RecvWaiters--
+	}
 	if ch == nil {
 		panic(pathEnd{endViolation, "blocked forever: receive from nil channel at " + ex.instrPos(fr, in)})
 	}
 	if len(ch.Buf) > 0 {
+		ch.Recvd++
 		old := ch.Buf
 		v := ch.Buf[0]
 		ch.Buf = ch.Buf[1:]
@@ -266,6 +281,7 @@ func (ex *Exec) chanRecv(fr *frame, in ssa.Instruction, chv Value, commaOk bool)
 
 func (ex *Exec) chanClose(fr *frame, in ssa.Instruction, chv Value) {
 	ch := chv.(*Chan)
+	ex.preemptPoint("close at " + ex.instrPos(fr, in))
 	if ch == nil {
 		panic(&targetPanic{v: Str{S: "close of nil channel"}, runtime: true, msg: "close of nil channel", site: ex.instrPos(fr, in)})
 	}
@@ -276,10 +292,142 @@ func (ex *Exec) chanClose(fr *frame, in ssa.Instruction, chv Value) {
 	ex.undoFn(func() { ch.Closed = false })
 }
 
+// schedSend is the blocking send of tier 2.
+func (ex *Exec) schedSend(fr *frame, in ssa.Instruction, ch *Chan, v Value) {
+	where := "send at " + ex.instrPos(fr, in)
+	ex.preemptPoint(where)
+	if ch == nil {
+		ex.block(func() bool { return false }, where+" (nil channel)")
+	}
+	closedPanic := func() {
+		if ch.Closed {
+			panic(&targetPanic{v: Str{S: "send on closed channel"}, runtime: true, msg: "send on closed channel", site: ex.instrPos(fr, in)})
+		}
+	}
+	closedPanic()
+	if ch.Cap > 0 {
+		ex.block(func() bool { return ch.Closed || len(ch.Buf) < ch.Cap }, where)
+		closedPanic()
+		ch.Buf = append(append([]Value(nil), ch.Buf...), copyVal(v))
+		ch.Sent++
+		return
+	}
+	// unbuffered: hand the value over and wait until a receiver has taken it
+	ex.block(func() bool { return ch.Closed || len(ch.Buf) == 0 }, where)
+	closedPanic()
+	ch.Buf = append(append([]Value(nil), ch.Buf...), copyVal(v))
+	ticket := ch.Sent
+	ch.Sent++
+	ex.block(func() bool { return ch.Recvd > ticket }, where+" (waiting for a receiver)")
+}
+
+// schedSelect is the select of tier 2.
+func (ex *Exec) schedSelect(fr *frame, instr *ssa.Select) (int, Value, *sym.Term) {
+	chans := make([]*Chan, len(instr.States))
+	for i, st := range instr.States {
+		chans[i], _ = fr.get(st.Chan).(*Chan)
+	}
+	ex.preemptPoint("select at " + ex.instrPos(fr, instr))
+	ready := func() []int {
+		var r []int
+		for i, st := range instr.States {
+			ch := chans[i]
+			if ch == nil {
+				continue
+			}
+			if st.Dir == types.RecvOnly {
+				if len(ch.Buf) > 0 || ch.Closed {
+					r = append(r, i)
+				}
+			} else if ch.Closed || (ch.Cap > 0 && len(ch.Buf) < ch.Cap) || (ch.Cap == 0 && len(ch.Buf) == 0 && ch.RecvWaiters > 0) {
+				r = append(r, i)
+			}
+		}
+		return r
+	}
+	rs := ready()
+	if len(rs) == 0 {
+		if !instr.Blocking {
+			return -1, nil, sym.False
+		}
+		for i, st := range instr.States {
+			if st.Dir == types.RecvOnly && chans[i] != nil {
+				chans[i].RecvWaiters++
+			}
+		}
+		ex.block(func() bool { return len(ready()) > 0 }, "select at "+ex.instrPos(fr, instr))
+		for i, st := range instr.States {
+			if st.Dir == types.RecvOnly && chans[i] != nil {
+				chans[i].RecvWaiters--
+			}
+		}
+		rs = ready()
+	}
+	k := 0
+	if len(rs) > 1 && ex.sch.choices < ex.schedBudget() {
+		k = ex.choose(len(rs), instr, fr)
+		if k != 0 {
+			ex.sch.choices++
+		}
+	}
+	i := rs[k]
+	ch := chans[i]
+	if instr.States[i].Dir == types.RecvOnly {
+		if len(ch.Buf) > 0 {
+			v := ch.Buf[0]
+			ch.Buf = ch.Buf[1:]
+			ch.Recvd++
+			return i, v, sym.True
+		}
+		return i, zero(ch.ElemT), sym.False
+	}
+	if ch.Closed {
+		panic(&targetPanic{v: Str{S: "send on closed channel"}, runtime: true, msg: "send on closed channel", site: ex.instrPos(fr, instr)})
+	}
+	ch.Buf = append(append([]Value(nil), ch.Buf...), copyVal(fr.get(instr.States[i].Send)))
+	ticket := ch.Sent
+	ch.Sent++
+	if ch.Cap > 0 {
+		return i, nil, sym.False
+	}
+	// unbuffered: the send only happens if the parked receiver really takes the
+	// value; if another case of this select becomes ready first (the receiver
+	// chose a different case of its own select) the offer is withdrawn.
+	otherReady := func() bool {
+		for _, j := range ready() {
+			if j != i {
+				return true
+			}
+		}
+		return false
+	}
+	ex.block(func() bool { return ch.Recvd > ticket || otherReady() }, "select-send at "+ex.instrPos(fr, instr)+" (waiting for the receiver)")
+	if ch.Recvd > ticket {
+		return i, nil, sym.False
+	}
+	ch.Buf = nil
+	ch.Sent--
+	return ex.schedSelect(fr, instr)
+}
+
 func (ex *Exec) selectStmt(fr *frame, instr *ssa.Select) Value {
 	chosen := -1
 	var recv Value
 	recvOk := sym.False
+	if ex.schedOn() {
+		chosen, recv, recvOk = ex.schedSelect(fr, instr)
+		r := Tuple{sym.Const(64, uint64(int64(chosen))), recvOk}
+		for i, st := range instr.States {
+			if st.Dir == types.RecvOnly {
+				if i == chosen && recv != nil {
+					r = append(r, recv)
+				} else {
+					r = append(r, zero(st.Chan.Type().Underlying().(*types.Chan).Elem()))
+				}
+			}
+		}
+		return r
+	}
 	for i, st := range instr.States {
 		ch, _ := fr.get(st.Chan).(*Chan)
 		if ch == nil {
@@ -317,7 +465,11 @@ func (ex *Exec) selectStmt(fr *frame, instr *ssa.Select) Value {
 }
 
 func (ex *Exec) goStmt(fr *frame, instr *ssa.Go) {
-	if ex.cfg.GoInline {
+	if ex.schedOn() {
+		ex.spawn(fr, instr)
+		return
+	}
+	if ex.cfg.GoInline || ex.atomicDepth > 0 {
 		// run the goroutine body to completion at the spawn point (a legal
 		// schedule when the body does not block); recorded as an assumption.
 		fn, args := ex.prepareCall(fr, &instr.Call, instr)
